@@ -11,7 +11,7 @@ LEVEL = "exploration"
 MANIFEST = dict(
     engine="E4-shmharness", engine_path="vlib/shmharness.py",
     kind="real shm.dataset.Manager + real SharedMemory segments + controllable Disk (harness schedules/fails page-out and page-in jobs) + virtual clock",
-    technique="runtime invariant monitoring at hooked state: after every operation and every disk-job completion of a generated history the harness asserts resident<=capacity, 0<=free<=capacity, free==capacity-resident at quiescent points, real /dev/shm bytes<=capacity, and checks each allocate/get reply against the accounting (wait iff it does not fit, grant reserves exactly size, page-in reserves before reading back)",
+    technique="runtime invariant monitoring at hooked state: after every operation and every disk-job completion of a generated history (capacities 4-256 bytes, in an eighth of the histories trimmed to less than configured because the host offers less) the harness asserts resident<=capacity, 0<=free<=capacity, free==capacity-resident at quiescent points, real /dev/shm bytes<=capacity, and checks each allocate/get reply against the accounting (wait iff it does not fit, grant reserves exactly size, page-in reserves before reading back)",
     text="Held = all invariant evaluations and admission checks passed on every history explored (operation mixes incl. purge racing a page-out between file write and unlink, injected disk failures, stale handles); the evidence lists evaluations, abstract states visited and completed page-outs/page-ins.",
     note="Interleavings are those CPython can produce: disk callbacks run either inline or in a thread parked at SharedMemory.unlink; races inside one bytecode statement are out of reach. After an injected disk failure only the <= capacity side is demanded by the property; the equality is still asserted because the code keeps it.",
 )
